@@ -33,3 +33,12 @@ package deployment
 //@ ensures one_write: #Patch <= 1 && #Update == 0 && #Delete == 0
 //@ ensures released: result == nil && old(rc.stableObject) != nil ==> #Patch == 1 && #Patch.ret0 == nil
 //@ ensures waits: result == nil && old(rc.stableObject) != nil && old(release.Spec.ReleasePlan.FinalizingPolicy) == v1beta1.WaitResumeFinalizingPolicyType ==> #waitAll == 1 && #waitAll.ret0 == nil
+
+// C06 (errors are surfaced, not swallowed): Delete reports success only if every finalizer removal it attempted either
+// succeeded or found the Deployment already gone; after any other error the BatchRelease must not be reported as cleaned
+// up (it would never be finalized again and the canary Deployment would keep its finalizer for ever).
+//@ func (*realCanaryController).Delete
+//@ props C06 C05
+//@ requires r != nil && release != nil
+//@ ensures success_means_every_removal_succeeded: result == nil && #updFin > 0 ==> #updFin.ret0 == nil || isNotFound(#updFin.ret0)
+//@ loop 1 invariant #updFin == 0 || #updFin.ret0 == nil || isNotFound(#updFin.ret0)
